@@ -352,6 +352,45 @@ def _returns_result(h):
     return h.locals[0].startswith('std::result::Result<') or h.locals[0].startswith('core::result::Result<')
 
 
+ATOMIC = re.compile(r'atomic::Atomic(::<\w+>|\w+)::(store|load|fetch_\w+|compare_exchange\w*|swap)$')
+
+
+def r05f(ctx, rep, cr):
+    rep.rule('R05f', 'ids are handed out by atomic read-modify-write: no function stores into an AtomicU64 id counter a value computed from '
+                     'a load of an atomic (load → add → store; two allocators can read the same value and hand out the same id — the '
+                     'second record overwrites the first while the first edge\'s endpoints keep listing the id). Stores of values that '
+                     'come from elsewhere (restoring the counters from persisted state) are not affected')
+    n = 0
+    n_rmw = 0
+    for name, f in sorted(cr.fns.items()):
+        sites = [c for c in A.calls(f) if ATOMIC.search(c.resolved)]
+        if not sites:
+            continue
+        defs = A.Defs(f)
+        loads = [c for c in sites if c.resolved.endswith('::load')]
+        for c in sites:
+            op = c.resolved.split('::')[-1]
+            if op.startswith('fetch_') or op.startswith('compare_exchange'):
+                n_rmw += 1
+            if op != 'store' or len(c.args) < 2:
+                continue
+            # only u64 counters (ids), not flags
+            if 'u64' not in c.resolved and 'U64' not in c.resolved:
+                continue
+            n += 1
+            rep.analysed(f)
+            sl = A.backward_slice(f, [c.args[1]], defs) if c.args[1][0] != 'k' else None
+            if sl is not None and any(l.dest[0] in sl.locals for l in loads):
+                rep.violation('R05f', f, 'load-add-store', f.loc(c.line),
+                              'an id counter is advanced by storing a value computed from an earlier load instead of by fetch_add: a '
+                              'concurrent create between the load and the store is handed the same id, its record is overwritten, and a node '
+                              'lists an edge that does not touch it')
+            else:
+                rep.holds('R05f', f, 'store', 'value does not come from a load of the counter')
+    rep.notes.append('R05f: %d atomic u64 stores examined, %d atomic read-modify-write sites' % (n, n_rmw))
+    rep.floor('R05f', 'atomic read-modify-write sites on counters in graph_engine', n_rmw, 4)
+
+
 def run(ctx, rep):
     cr = ctx.crate('graph_engine')
     cg = ctx.callgraph(['graph_engine'])
@@ -360,3 +399,4 @@ def run(ctx, rep):
     r05c(ctx, rep, cr)
     r05d(ctx, rep, cr)
     r05e(ctx, rep, cr)
+    r05f(ctx, rep, cr)
